@@ -22,6 +22,14 @@ CLAIMED = {
             "Runtime monitoring: histories of successful and failing Set/Add/Update/Delete calls (with and without WithWriteTime) are driven one call at a time; backpressured subscribers with every option combination are opened before every step; after every step count, order, id, kind, new/old value, change time, seed flags, seed order and seed change times of what each subscriber received are compared with the writer's log. Exhaustive for short histories, random for long ones.",
             "Change times are decided with a counting fake clock (a reported time identifies the reading it came from): exact when a write time is given, otherwise within the readings taken during the call; the equivalence used is a true equivalence relation applied to read-masked values.",
             "DESIGN.md §4 C04"),
+    "C06": ("reference-model monitor: independent projection oracle + shadow copies of stored/passed messages and masks, corrupted masks under recover / crash isolation",
+            "Runtime monitoring: nil, empty and every mask of <= 3 paths from a pool (nested, through repeated messages, parent+child, duplicates) x 8 stored messages, random masks, and systematically corrupted masks (unknown segment, continuation through scalar / map / repeated scalar, empty segment) are run through ResponseFilter.Validate/Filter/FilterClone, Value.Get/Pull, Collection.Get/List/Pull/PullID; every returned message is compared with an independent projection, the stored and passed-in messages and the mask are shadow-copied and re-compared, validation must report corrupted masks invalid and no read may panic (Pull cases behind crash isolation).",
+            "A result with or without empty shells of unselected parent messages is accepted; unknown fields kept by a masked read are counted, not judged.",
+            "DESIGN.md §4 C06"),
+    "C07": ("shadow-copy monitor: every message crossing an API boundary is deep-copied when it crosses and re-compared after every later operation; inputs are scribbled after each write",
+            "Runtime monitoring: random operation sequences on Value/Collection (with 0-2 open subscriptions whose seeds and events are retained), on every trait model server reachable through its Register method (handlers called directly so the real pointers flow, ids harvested from earlier responses) and on model-level methods without an RPC (parent, metadata model and collection, enter/leave, electric). After every operation all retained messages are compared with their copies; after every write the caller's message is overwritten and the store (and everything retained) must be unaffected.",
+            "The harness never mutates messages it obtained from reads; constructor initial values are cloned by the harness; a result that merely aliases the caller's own input is reported under its own key class.",
+            "DESIGN.md §4 C07"),
     "C08": ("online reference-model monitor: decision table per event and fold(filtered stream) vs List(WithInclude) at quiescent points, predicates enumerated as truth tables",
             "Runtime monitoring: all 64 predicates over (id, value) as truth tables x exhaustive short write histories x backpressure on/off are run on the real collection; after every write the drained events are judged against the four-row inclusion decision table and the fold of the stream against List with the same predicate; lossy merges are enumerated by parking the consumer at quiescent points. The booking server's ListBookings/PullBookings are checked the same way.",
             "An absent item is never a member of the filtered collection whatever the predicate answers for nil; change times and old values of merged lossy events are not asserted.",
@@ -58,6 +66,10 @@ CLAIMED = {
             "Runtime monitoring: every period pair on a small exhaustive grid, random 64-bit-range timestamps and random segment/mode lists are run through the real functions and compared with brute-force mathematical oracles; arguments are shadow-copied to detect mutation. Held on the executions listed in the evidence, nothing more.",
             "Oracles are written from the property text; float32 magnitudes are small integers so arithmetic is exact; inputs outside the stated domain (inverted periods) are counted, not judged.",
             "DESIGN.md §4 C18"),
+    "C19": ("online invariant + reference monitor over bounded-exhaustive and random sequences with a fake model clock; concurrent part with stress yields, atomic Modes() snapshots and folded Pull streams at quiescence",
+            "Runtime monitoring: all length-4 (thorough length-5) sequences over create/add/update/delete(±allow-missing)/set-active/change-active/clear-active on up to 4 modes through the Model API and the ElectricApi/MemorySettingsApi servers, random 100-step sequences through model, server, wrapped clients and mixes, and 2-4 goroutines issuing the operations concurrently; after every step (resp. in every atomic snapshot and at quiescence): at most one normal mode, active mode never deleted and always existing once changed, clear-active selects the normal mode, a switch to a different mode stamps the fake clock's current reading, delete of an absent mode NotFound unless allow-missing.",
+            "SetActiveMode start times and re-selecting the active mode are observed, not judged; documented return codes beyond the statement are counted only.",
+            "DESIGN.md §4 C19"),
     "C20": ("online reference-model monitors: per-model executable specifications (set algebra, exact rational arithmetic, lookup tables, counters, fake clocks, content hashes) stepped in lock-step with the real models and servers",
             "Runtime monitoring: random operation sequences with random configurations on parent, vending (+unit conversion over every unit pair), fan speed, mode, enter/leave, meter and publication models and their servers; every getter and RPC response is compared with a small executable specification written from doc comments and sc-api comments; panics on well-formed requests are violations.",
             "Requests the documentation leaves open are counted, not judged; aliasing is C07's subject.",
